@@ -7,7 +7,7 @@ from .common import *
 
 META = {
     "level": "other",
-    "explanation": "Exception-flow and sibling-agreement check of every _sizeof/_actualsize: (R1) in all definitions of _sizeof and _actualsize every evaluation of a context-dependent parameter and every context lookup lies inside a try whose handler covers KeyError and AttributeError and raises SizeofError(path); every explicit raise is SizeofError (frozen, documented exemption: PaddingError for negative length / modulus < 2); _sizeof touches no stream; (R2) the amount _sizeof returns equals, as a normalised symbolic term, the net amount _build writes and the net amount _parse reads under the compositional abstraction 'a sub-construct moves the stream by what its own _sizeof returns' (stream-position algebra, see sa/pos.py); (R3) every class whose parse amount is data dependent (reads to end of stream, loops an unbounded number of times over the stream, returns from inside an alternative loop, seeks relative to the end) resolves _sizeof to a definition that raises SizeofError on every path (frozen exemption from the property text: ProcessXor/ProcessRotateLeft read to the end regardless of declared size); (R4) sizeof() enters with the (sizeof) context and the default _actualsize delegates to _sizeof.",
+    "explanation": "Exception-flow and sibling-agreement check of every _sizeof/_actualsize: (R1) in all definitions of _sizeof and _actualsize every evaluation of a context-dependent parameter and every context lookup lies inside a try whose handler covers KeyError and AttributeError and raises SizeofError(path); every explicit raise is SizeofError (frozen, documented exemption: PaddingError for negative length / modulus < 2); _sizeof touches no stream; (R2) the amount _sizeof returns equals, as a normalised symbolic term, the net amount _build writes and the net amount _parse reads under the compositional abstraction 'a sub-construct moves the stream by what its own _sizeof returns' (stream-position algebra, see sa/pos.py); (R3) every class whose parse amount is data dependent (reads to end of stream, loops an unbounded number of times over the stream, returns from inside an alternative loop, seeks relative to the end) resolves _sizeof to a definition that raises SizeofError on every path (frozen exemption from the property text: ProcessXor/ProcessRotateLeft read to the end regardless of declared size); (R4) sizeof() enters with the (sizeof) context and the default _actualsize delegates to _sizeof. (R5) the four transforming macros instantiate Transformed/Restreamed with unit amounts and a size computer equal to the inner size through the unit ratio of their decoder (shared with C10.R1/R2).",
     "undecided": "That real builds advance by exactly n for all values follows from R2 only under 'sub-constructs honour their own sizeof' (induction over nesting); user callbacks (sizecomputer, lambdas) are opaque.",
     "trusted_base": ["python ast (3.12)", "sa.summ summariser", "sa.pos position algebra", "linear-arithmetic normal form of sa.norm"],
     "assumptions": ["negative lengths / modulus < 2 are exempt by documentation"],
@@ -157,6 +157,11 @@ def run(ctx):
     ok = len(subs) == 1 and subs[0]["target"] == SELF and subs[0]["path"] == N.const("(sizeof)") and all(p.retval == subs[0]["res"] for p in paths if p.returns)
     ctx.ob("C05.R4", fi, ok, "sizeof() returns _sizeof(fresh context, '(sizeof)')", key="entry")
     ctx.floor("C05.R4", 3)
+
+    # ---------------------------------------------------------------- R5 the size a transforming macro reports is the inner size through the unit ratio (shared with C10.R1/R2)
+    from . import C10
+    C10.check_macros(ctx, ("Bitwise", "Bytewise", "ByteSwapped", "BitsSwapped"), "C05.R5", "C05.R5", "C05.R5")
+    ctx.floor("C05.R5", 12)
 
     # R2 is produced by the position algebra
     try:
